@@ -325,8 +325,9 @@ func PrepareFact(ctx *Context, givenId string, x Map) (id string, m map[string]i
 		return
 	}
 	Log(DEBUG, ctx, "PrepareFact", "givenId", givenId, "id", id)
-	if IsVariable(id) {
-		// Ids end up in patterns ('deleteWith').
+	if IsVariable(id) && !(ctx != nil && ctx.GetLoc() != nil && ctx.GetLoc().loading) {
+		// Ids end up in patterns ('deleteWith').  (What is
+		// stored already is loaded as it is.)
 		err = fmt.Errorf("id '%s' cannot start with a '?'", id)
 		Log(UERR, ctx, "PrepareFact", "givenId", givenId, "error", err)
 		return
@@ -523,6 +524,9 @@ func setExpires(ctx *Context, fact map[string]interface{}) (bool, int64, error) 
 			expires = int64(vv)
 		case int64: // Can arrive from Go (via, say, a test case)
 			expires = vv
+		case int: // As a 'ttl' can.
+			expires = int64(vv)
+			fact["expires"] = expires
 		case string:
 			t, err := time.Parse(time.RFC3339, vv)
 			if err != nil {
